@@ -1102,37 +1102,107 @@ def _obj_look(G, gtype, kind, M, keep):
         raise ValueError("unknown inspection in case: {}".format(kind))
 
 
-def _obj_write_check(G, gtype, fmt, route, M, what, text_given=None):
-    """Writes G (or takes the text of a file already written) and reads it back: the model, exactly."""
+def _plain_dot(text, gtype):
+    """Harness-side reader for the plain DOT dialect that pydot writes for these graphs: a header line
+    '[strict] graph|digraph [name] {', one statement per line, 'ID [attrs];' or 'ID -- ID [attrs];'
+    ('->' when directed) with decimal identifiers, and a closing '}'.  Vertices are numbered by increasing
+    identifier (each side on its own for a bipartite graph, side = attribute bipartite=0|1).
+    Returns the description of the graph, or None when the text is not in this dialect."""
+    import re
+    lines = [l.strip() for l in text.split('\n') if l.strip()]
+    if len(lines) < 2 or lines[-1] != '}':
+        return None
+    directed = gtype in ('digraph', 'dag')
+    if not re.match(r'(strict\s+)?' + ('digraph' if directed else 'graph') + r'\b[^{};]*\{\Z', lines[0]):
+        return None
+    node = re.compile(r'(\d+)(?:\s*\[bipartite=([01])\])?;\Z')
+    edge = re.compile(r'(\d+)\s*' + ('->' if directed else '--') + r'\s*(\d+);\Z')
+    ids, side, raw = [], {}, []
+    for l in lines[1:-1]:
+        m = node.match(l)
+        if m:
+            x = int(m.group(1))
+            if x in side:
+                return None
+            ids.append(x)
+            side[x] = m.group(2)
+            continue
+        m = edge.match(l)
+        if not m:
+            return None
+        raw.append((int(m.group(1)), int(m.group(2))))
+    if any(a not in side or b not in side for a, b in raw):
+        return None
+    if gtype == 'bipartite':
+        if any(side[x] is None for x in ids):
+            return None
+        left = sorted(x for x in ids if side[x] == '0')
+        right = sorted(x for x in ids if side[x] == '1')
+        li = {x: i + 1 for i, x in enumerate(left)}
+        ri = {x: i + 1 for i, x in enumerate(right)}
+        edges = []
+        for a, b in raw:
+            if side[a] == '1':
+                a, b = b, a
+            if side[a] != '0' or side[b] != '1':
+                return None
+            edges.append((li[a], ri[b]))
+        if len(set(edges)) != len(edges):
+            return None
+        return R.make_desc(gtype, L=len(left), R=len(right), edges=edges)
+    num = {x: i + 1 for i, x in enumerate(sorted(ids))}
+    edges = [(num[a], num[b]) for a, b in raw]
+    if len(R.canon_edges(gtype, edges)) != len(edges):      # an edge written twice
+        return None
+    return R.make_desc(gtype, n=len(ids), edges=edges)
+
+
+def _obj_write_check(G, gtype, fmt, route, M, what, text_given=None, dot_reader='tree'):
+    """Writes G (or takes the text of a file already written) and reads it back: the model, exactly.
+    A DOT text is read by the tree (pydot, ~50 ms) or, dot_reader='harness', by _plain_dot when it applies."""
     from cnfgen.graphs import readGraph, writeGraph
     want = M.desc()
     labels = []
+    H = None
     try:
         with _quiet():
             if text_given is not None:
                 text = text_given
-                H = readGraph(io.StringIO(text), gtype, fmt)
             elif route == 'stringio':
                 buf = io.StringIO()
                 writeGraph(G, buf, gtype, fmt)
                 text = buf.getvalue()
-                H = readGraph(io.StringIO(text), gtype, fmt)
             else:
                 with _tmpdir() as tmp:
                     p = os.path.join(tmp, 'object.' + fmt)
                     if route == 'filename':
                         writeGraph(G, p, gtype)             # format from the extension
-                        H = readGraph(p, gtype)
                     else:
                         with open(p, 'w', encoding='utf-8') as f:
                             writeGraph(G, f, gtype, fmt)
-                        with open(p, 'r', encoding='utf-8') as f:
-                            H = readGraph(f, gtype, fmt)
                     with open(p, 'r', encoding='utf-8') as f:
                         text = f.read()
+                    if not (fmt == 'dot' and dot_reader == 'harness'):
+                        if route == 'filename':
+                            H = readGraph(p, gtype)
+                        else:
+                            with open(p, 'r', encoding='utf-8') as f:
+                                H = readGraph(f, gtype, fmt)
+            if fmt == 'dot' and dot_reader == 'harness':
+                got = _plain_dot(text, gtype)
+                if got is not None:
+                    labels.append('dot-read-by-harness')
+                    if got != want:
+                        raise Violation("{}: the DOT text written, {!r}, is the graph {} instead of {}".format(
+                            what, text, got, want), signature='obj-written-text')
+                    return labels
+            if H is None:
+                H = readGraph(io.StringIO(text), gtype, fmt)
     except ValueError as e:
         raise Violation("{}: writing the object and reading the file back raised ValueError({})".format(what, e),
                         signature='obj-rejected')
+    if fmt == 'dot':
+        labels.append('dot-read-by-tree')
     if fmt in R.INHOUSE[gtype]:
         ref = R.ref_read(fmt, gtype, text)
         if ref.status == 'invalid' or ref.graph != want:
@@ -1149,6 +1219,7 @@ def run_objects(case):
     gtype = case['gtype']
     fmts = [f for f in FORMATS[gtype] if f in supported_graph_formats()[gtype]]
     labels = set()
+    dot_reader = case.get('dot_reader', 'tree')
     trace = []          # the concrete calls made so far, for the message
 
     def ctx(extra):
@@ -1176,7 +1247,7 @@ def run_objects(case):
                 with open(path, 'r', encoding='utf-8') as f:
                     text = f.read()
                 _obj_write_check(G, gtype, sfmt, None, M, ctx("the file saved by the command line in {} format".format(sfmt)),
-                                 text_given=text)
+                                 text_given=text, dot_reader=dot_reader)
                 labels.add('{}/{}'.format(gtype, sfmt))
 
     keep = []
@@ -1200,7 +1271,8 @@ def run_objects(case):
             if fmt not in fmts:
                 continue
             trace.append('write:{}:{}'.format(fmt, route))
-            _obj_write_check(G, gtype, fmt, route, M, ctx("written in {} format ({})".format(fmt, route)))
+            _obj_write_check(G, gtype, fmt, route, M, ctx("written in {} format ({})".format(fmt, route)),
+                             dot_reader=dot_reader)
             _obj_note_pattern(labels, looked, M, written, edits_since_write)
             looked = (len(M.E), set(M.E), M.order())
             written += 1
@@ -1305,7 +1377,7 @@ def run_objects(case):
     for fmt in fmts:
         labels.add('{}/{}'.format(gtype, fmt))
         got = _obj_write_check(G, gtype, fmt, route, M,
-                               ctx("written at the end in {} format ({})".format(fmt, route)))
+                               ctx("written at the end in {} format ({})".format(fmt, route)), dot_reader=dot_reader)
         labels.update(got)
     _obj_note_pattern(labels, looked, M, written, edits_since_write)
     if 'dot' not in fmts:
@@ -1431,7 +1503,8 @@ def enum_objects(tier):
     def case(gtype, base, steps, **kw):
         nonlocal k
         k += 1
-        c = {'gtype': gtype, 'steps': [list(s) for s in steps], 'route': OBJ_ROUTES[k % 3], 'rseed': k}
+        c = {'gtype': gtype, 'steps': [list(s) for s in steps], 'route': OBJ_ROUTES[k % 3], 'rseed': k,
+             'dot_reader': 'tree' if (tier == 'thorough' or k % 4 == 0) else 'harness'}
         c.update(base)
         c.update(kw)
         return c
@@ -1567,12 +1640,13 @@ def strat_objects(draw):
     c['steps'] = steps
     c['route'] = draw(_OBJ_ROUTE)
     c['rseed'] = rseed
+    c['dot_reader'] = 'tree' if rseed % 4 == 0 else 'harness'
     return c
 
 
 SUBCHECKS.append(
     SubCheck('objects', run_objects, strategy=strat_objects, enumerate_cases=enum_objects,
-             quick=500, thorough=30000,
+             quick=500, thorough=20000,
              rule="one graph object, built in one of the legal ways and possibly used before it is written. "
                   "Construction: add_edge in a random order / add_edges_from / from_networkx and normalize of a foreign "
                   "networkx graph (labels mul*i+add, reversed insertion) / read from a kthlist, dimacs, matrix, gml or dot "
